@@ -64,7 +64,10 @@ func c20Gen(c *Ctx, maxTrips int) *journal.Journal {
 		case 2:
 			t.StartTime = time.Unix(0, 0).UTC()
 		}
-		switch c.Choose(p+"markedpast", 5) {
+		switch c.Choose(p+"markedpast", 6) {
+		case 5:
+			mp := time.Time{} // the zero time (what a feed without header timestamp leaves behind) is a value too: -62135596800
+			t.MarkedPast = &mp
 		case 4:
 			mp := time.Unix(int64(1700000900+1000*i), 750_000_000).UTC()
 			t.MarkedPast = &mp
@@ -109,7 +112,7 @@ func c20Gen(c *Ctx, maxTrips int) *journal.Journal {
 				st.Track = &v
 			}
 			optTime := func(label string, base int64, basePresent bool) *time.Time {
-				k := c.Choose(label, 6)
+				k := c.Choose(label, 7)
 				if !basePresent && k < 4 {
 					k = []int{1, 0, 2, 3}[k]
 				}
@@ -128,6 +131,9 @@ func c20Gen(c *Ctx, maxTrips int) *journal.Journal {
 					return &v
 				case 5:
 					v := time.Unix(base, 999_999_999).In(zoneNY)
+					return &v
+				case 6:
+					v := time.Time{}
 					return &v
 				}
 				return nil
@@ -319,7 +325,7 @@ func init() {
 	register(&Check{
 		ID:    "C20",
 		Level: "model_checking",
-		Rule: "journals with 0..2 (thorough 0..3) trips x 0..2 stop times per trip (full product over the counts) x k deviations (quick 2, thorough 3) over presence of track/arrival/departure/marked-past, direction (0/1/unspecified/out-of-range), id shapes (NYCT-like, empty, spaces, leading space, non-ASCII, invalid UTF-8, characters such as + & < > ' ; | \\ that are special in other formats but not in CSV), counters (negative, zero, large), zero start times, instants with sub-second parts of 0.5 s and more, a stop time repeated verbatim after itself; journals of 7..4099 trips (around powers of two, not multiples of 8) x 4 patterns of stop times per trip; " +
+		Rule: "journals with 0..2 (thorough 0..3) trips x 0..2 stop times per trip (full product over the counts) x k deviations (quick 2, thorough 3) over presence of track/arrival/departure/marked-past, direction (0/1/unspecified/out-of-range), id shapes (NYCT-like, empty, spaces, leading space, non-ASCII, invalid UTF-8, characters such as + & < > ' ; | \\ that are special in other formats but not in CSV), counters (negative, zero, large), zero start times, present optional times that are the zero time.Time, instants with sub-second parts of 0.5 s and more, a stop time repeated verbatim after itself; journals of 7..4099 trips (around powers of two, not multiples of 8) x 4 patterns of stop times per trip; " +
 			"non-trivial = distinct journals with at least one trip; oracle = read back with encoding/csv by header name, cell-by-cell, journal dumped before/after",
 		Assumptions: []string{"ids and tracks are free of comma, double quote, CR and LF, as the property stipulates", "header names of the two tables are part of the observable interface"},
 		Scenarios: func(tier string) []*Scenario {
